@@ -1,5 +1,6 @@
 """C05 - Deferred entity deletion is applied at the next process, safely."""
 import collections
+import os
 import random
 
 from vf.core import Res, HarnessError
@@ -98,7 +99,25 @@ def gen_one(rng, tier):
     return case
 
 
+def gen_scale(rng):
+    ncls = 4
+    case = {'classes': wl.gen_classes(rng, ncls, wl.SHAPES),
+            'ids': list(range(1, 80)), 'procs': 2, 'ops': []}
+    ops = case['ops']
+    for k in range(60):
+        ops.append(['create', rng.sample(range(ncls), rng.randint(1, 2)),
+                    ['x', k]])
+    for k in rng.sample(range(60), 45):
+        ops.append(['delete', ['x', k], False])
+    if rng.random() < 0.6:
+        ops.insert(rng.randrange(61, len(ops)), ['delghost', 0])
+    ops += [['process', 1], ['process', 1], ['process', 0.5], ['process', 1]]
+    return case
+
+
 def gen_cases(tier, seed):
+    for i in range(4 if tier == 'quick' else 64):
+        yield gen_scale(random.Random(f'C05/scale/{seed}/{tier}/{i}'))
     n = 1500 if tier == 'quick' else 16 * 5000
     for i in range(n):
         yield gen_one(random.Random(f'C05/{seed}/{tier}/{i}'), tier)
@@ -114,6 +133,7 @@ class C05Driver(wl.Driver):
         self.window = {}            # id -> ops since its delete_entity
         self.touched_in_window = False
         self.fault_obj = None
+        self.flushing = None        # set while process() runs
         self.remove_fault = None    # countdown to a raising on_remove
         self.remove_fault_obj = None
         self.broken = set()         # ids left half-flushed by such a fault
@@ -135,6 +155,23 @@ class C05Driver(wl.Driver):
             self.world.add_processor(p)
 
     def in_callback(self, comp, kind, args):
+        if kind == 'remove' and self.flushing is not None \
+                and 'seen_alive' not in self.flushing \
+                and not os.environ.get('VF_TREE_PREDATES_AAD6AA0'):
+            # read-only probe from inside an on_remove of the flush: every
+            # entity whose deletion was requested must not exist (it is
+            # either still awaiting deletion or already gone)
+            try:
+                ents = self.world.entities
+                for e in self.flushing['pending']:
+                    if e in self.broken:
+                        continue
+                    self.res.stats['existence_reads_inside_flush'] += 1
+                    if self.world.entity_exists(e) or e in ents:
+                        self.flushing['seen_alive'] = e
+                        break
+            except Exception as ex:
+                self.flushing['seen_alive'] = repr(ex)
         if kind == 'remove' and self.remove_fault is not None:
             if self.remove_fault == 0:
                 self.remove_fault = None
@@ -172,12 +209,16 @@ class C05Driver(wl.Driver):
         self.fault_obj = None
         self.remove_fault = op[3] if len(op) > 3 else None
         self.remove_fault_obj = None
+        self.flushing = {'pending': set(self.model.pending)
+                         - set(self.model.fuzzy)}
         rec['injected'] = self.fault_at is not None
         rec['ghost'] = len(self.ghost_pending)
 
     def model_process(self, rec):
         m = self.model
         self.remove_fault = None
+        rec['seen_alive'] = (self.flushing or {}).get('seen_alive')
+        self.flushing = None
         if self.remove_fault_obj is not None:
             # the flush was interrupted: which of the other pending entities
             # were already flushed is not stated; the interrupted one is
@@ -246,6 +287,12 @@ class C05Driver(wl.Driver):
         if name == 'process':
             self.window.clear()
 
+        if name == 'process' and rec.get('seen_alive') is not None \
+                and not rec.get('ghost'):
+            res.div(at, 'exists-during-flush', 'an on_remove callback of the '
+                    'flush saw an entity whose deletion had been requested as '
+                    'existing', 'not existing', rec['seen_alive'])
+            return
         if name == 'process':
             res.stats['process_calls_checked'] += 1
             exc = rec['exc']
